@@ -112,13 +112,13 @@ class SuperProxy:
             f = k.method(name)
             if f is not None:
                 return self.oe.bind(f, self.receiver, k)
+        ext = self.oe.external_base_methods.get(name)
+        if ext is not None:
+            return ext(self.receiver)
         if name == "__new__":
             return _ObjectNew(self.oe)
         if name in ("__init_subclass__", "__init__"):
             return _Noop()
-        ext = self.oe.external_base_methods.get(name)
-        if ext is not None:
-            return ext(self.receiver)
         raise Unsupported(f"super().{name} not found in the repo model")
 
 
@@ -140,6 +140,21 @@ class ImportTimeRegistry(dict):
         if self.oe.initsub_depth > 0:
             return
         dict.__setitem__(self, k, v)
+
+
+class Native:
+    """A callable supplied by a check's abstract world (the contract of something outside the repository)."""
+
+    sa_callable = True
+
+    def __init__(self, fn, name="native"):
+        self.fn, self.name = fn, name
+
+    def __call__(self, *a, **k):
+        return self.fn(*a, **k)
+
+    def __repr__(self):
+        return f"<native {self.name}>"
 
 
 class _ObjectNew:
@@ -165,7 +180,7 @@ class _Noop:
 
 # standard-library modules whose functions are pure functions of plain values (no I/O, no global state): admitted as the
 # specification of themselves when every argument is a plain Python value
-PURE_STDLIB = {"bisect", "heapq", "textwrap", "string", "posixpath", "fnmatch", "keyword", "unicodedata", "operator", "itertools", "math", "_compat_pickle", "binascii", "base64", "difflib", "shlex"}
+PURE_STDLIB = {"re", "copy", "bisect", "heapq", "textwrap", "string", "posixpath", "fnmatch", "keyword", "unicodedata", "operator", "itertools", "math", "_compat_pickle", "binascii", "base64", "difflib", "shlex"}
 
 
 def _pure_attr(modname: str, name: str):
@@ -181,17 +196,42 @@ def _pure_attr(modname: str, name: str):
             return list(r) if hasattr(r, "__next__") else r
 
         return _Spec(call, f"{modname}.{name}")
-    if isinstance(v, (str, bytes, int, float, tuple, frozenset, dict, list, set)):
+    if isinstance(v, (str, bytes, int, float, tuple, frozenset, dict, list, set)) or (modname == "re" and isinstance(v, int)):
         return v
     raise Unsupported(f"external attribute {modname}.{name}")
 
 
+class RepoModuleRef:
+    """A module of the repository as a value (`import fickling.loader as loader`): attribute reads are its globals."""
+
+    def __init__(self, oe, m):
+        self.oe, self.m = oe, m
+
+    def sa_attr(self, name: str):
+        v = self.oe.module_global(self.m, name)
+        if v is _MISSING:
+            raise PyRaise("AttributeError")
+        return v
+
+    def sa_setattr(self, name: str, v):
+        self.oe._module_values[(self.m.name, name)] = v
+
+
 class ModuleRef:
-    def __init__(self, name: str):
-        self.name = name
+    def __init__(self, name: str, oe=None):
+        self.name, self.oe = name, oe
+
+    def sa_setattr(self, name: str, v):
+        if self.oe is None:
+            raise Unsupported(f"store to {self.name}.{name}")
+        self.oe.module_state[(self.name, name)] = v  # rebinding an attribute of an external module: process-wide state
 
     def sa_attr(self, name: str):
         q = f"{self.name}.{name}"
+        if self.oe is not None and (self.name, name) in self.oe.module_state:
+            return self.oe.module_state[(self.name, name)]
+        if self.oe is not None and q in self.oe.externals:
+            return self.oe.externals[q]
         if self.name in PURE_STDLIB:
             return _pure_attr(self.name, name)
         if q in SPEC_CALLABLES:
@@ -200,7 +240,7 @@ class ModuleRef:
             return SPEC_CONSTANTS[q]
         if self.name == "ast" and isinstance(getattr(ast, name, None), type):
             return _PyType(getattr(ast, name))
-        if self.name == "io" and isinstance(getattr(__import__("io"), name, None), type) and name != "BytesIO":
+        if self.name == "io" and isinstance(getattr(__import__("io"), name, None), type):
             return _PyType(getattr(__import__("io"), name))
         if self.name == "builtins":
             import builtins as _b
@@ -272,7 +312,7 @@ def _genops(stream):
 
     if isinstance(stream, (bytes, bytearray)):
         stream = io.BytesIO(bytes(stream))
-    if not isinstance(stream, io.BytesIO):
+    if not isinstance(stream, (io.BytesIO, io.BufferedReader)):
         raise Unsupported("genops over something that is not an in-memory stream")
     return _GenopsIter(stream)
 
@@ -285,7 +325,6 @@ def _bytesio(data=b""):
 
 SPEC_CALLABLES = {
     "pickletools.genops": _Spec(_genops, "pickletools.genops"),
-    "io.BytesIO": _Spec(_bytesio, "io.BytesIO"),
     "ast.unparse": _Spec(ast.unparse, "ast.unparse"),
     "ast.dump": _Spec(ast.dump, "ast.dump"),
     "ast.walk": _Spec(_listed(ast.walk), "ast.walk"),
@@ -321,6 +360,9 @@ class ObjEval:
         self._module_values: Dict[tuple, Any] = {}
         self._defaults: Dict[tuple, Any] = {}
         self._memo_results: Dict[tuple, Any] = {}
+        self.module_state: Dict[tuple, Any] = {}  # (external module, attribute) -> current binding
+        self.func_overrides: Dict[str, Any] = {}  # qualified repo function -> stand-in supplied by a check's abstract world
+        self.eval_module_calls = False
         self.initsub_depth = 0
         self.max_steps = 2_000_000
         self.module_specials: Dict[tuple, Any] = {}  # (module name, global name) -> provider(): registries filled while classes are created
@@ -380,6 +422,8 @@ class ObjEval:
                 return v
         if name in ("visit", "generic_visit") and isinstance(receiver, Instance) and "ast.NodeVisitor" in self.repo.mro(c):
             return _NodeVisitorMethod(self, receiver, name)
+        if name in self.external_base_methods and isinstance(receiver, Instance) and any(not b.startswith("fickling.") for b in self.repo.mro(c)):
+            return self.external_base_methods[name](receiver)
         raise PyRaise("AttributeError")
 
     def special(self, c: ClassInfo, name: str):
@@ -503,6 +547,9 @@ class ObjEval:
         return r
 
     def _call_func(self, f: FuncInfo, args: list, kw: dict, owner: Optional[ClassInfo]):
+        ov = self.func_overrides.get(f.qualname)
+        if ov is not None:
+            return ov(*args, **kw)
         self.depth += 1
         try:
             if self.depth > MAX_DEPTH:
@@ -525,6 +572,8 @@ class ObjEval:
             return self.ref(m.classes[name])
         if name in m.functions:
             return FuncRef(self, m.functions[name])
+        if (m.name, name) in self._module_values:
+            return self._module_values[(m.name, name)]
         if (m.name, name) in self.module_specials:
             mkey = (m.name, name)
             if mkey not in self._module_values:
@@ -546,6 +595,10 @@ class ObjEval:
                 return OEvaluator(self, {}, m).ev(v)
             if isinstance(v, ast.Call) and isinstance(v.func, ast.Name) and v.func.id in ("frozenset", "set", "tuple", "list", "dict") and len(v.args) <= 1 and not v.keywords:
                 return OEvaluator(self, {}, m).ev(v)  # a container built once at import from constants
+            if isinstance(v, (ast.Attribute, ast.Name)):
+                return OEvaluator(self, {}, m).ev(v)  # an alias bound at import: X = pickle.load / alias = function
+            if self.eval_module_calls and isinstance(v, (ast.Call, ast.DictComp, ast.ListComp, ast.SetComp, ast.IfExp, ast.BoolOp, ast.Lambda)):
+                return OEvaluator(self, {}, m).ev(v)  # whatever else the module computes once, at import
             raise Unsupported(f"module-level name {name} = {ast.unparse(v)[:40]}")
 
     def _module_global_rest(self, m: Module, name: str, seen=None):
@@ -559,14 +612,18 @@ class ObjEval:
                 return FuncRef(self, lk)
             if q in self.externals:
                 return self.externals[q]
-            if q.startswith("io.") and q.count(".") == 1 and isinstance(getattr(__import__("io"), q[3:], None), type) and q != "io.BytesIO":
+            if q.startswith("io.") and q.count(".") == 1 and isinstance(getattr(__import__("io"), q[3:], None), type):
                 return _PyType(getattr(__import__("io"), q[3:]))  # a class of the io hierarchy, for isinstance tests
             if q in SPEC_CALLABLES:
                 return SPEC_CALLABLES[q]
             if q in SPEC_CONSTANTS:
                 return SPEC_CONSTANTS[q]
-            if q in ("struct", "pickletools", "ast", "sys", "io", "re", "abc", "enum", "typing", "marshal", "pickle", "builtins", "json", "collections") or q in PURE_STDLIB:
-                return ModuleRef(q)
+            if isinstance(lk, Module):
+                return RepoModuleRef(self, lk)
+            if (q.rsplit(".", 1)[0], q.rsplit(".", 1)[-1]) in self.module_state:
+                return self.module_state[(q.rsplit(".", 1)[0], q.rsplit(".", 1)[-1])]
+            if q in ("struct", "pickletools", "ast", "sys", "io", "re", "abc", "enum", "typing", "marshal", "pickle", "_pickle", "builtins", "json", "collections") or q in PURE_STDLIB:
+                return ModuleRef(q, self)
             if "." in q and q.rsplit(".", 1)[0] in PURE_STDLIB:
                 return _pure_attr(*q.rsplit(".", 1))
             if q.startswith("typing.") or q in ("abc.ABC", "abc.abstractmethod", "enum.Enum"):
@@ -783,7 +840,7 @@ class OEvaluator(Evaluator):
             if attr in ("size", "format"):
                 return getattr(v, attr)
             raise Unsupported(f"attribute .{attr} of a struct.Struct")
-        if isinstance(v, (str, bytes, bytearray, int, list, dict, tuple, float, set, frozenset, __import__("io").BytesIO)) and not isinstance(v, bool):
+        if isinstance(v, (str, bytes, bytearray, int, list, dict, tuple, float, set, frozenset, __import__("io").BytesIO, __import__("io").BufferedReader, __import__("re").Pattern, __import__("re").Match)) and not isinstance(v, bool):
             return _PyMethod(v, attr)
         raise Unsupported(f"attribute .{attr} of a {type(v).__name__}")
 
@@ -959,6 +1016,9 @@ class OEvaluator(Evaluator):
                     return
                 raise Unsupported("attribute store on a non-object")
             if isinstance(t, ast.Name):
+                if t.id in self.__dict__.get("globals_declared", ()):
+                    self.oe._module_values[(self.module.name, t.id)] = self.ev(st.value)  # `global x; x = ...`
+                    return
                 self.env[t.id] = self.ev(st.value)
                 return
         if isinstance(st, ast.Assign) and len(st.targets) == 1 and isinstance(st.targets[0], (ast.Tuple, ast.List)) and not any(isinstance(t, ast.Starred) for t in st.targets[0].elts) and any(not isinstance(t, ast.Name) for t in st.targets[0].elts):
@@ -1006,6 +1066,12 @@ class OEvaluator(Evaluator):
             self.ev(st.value)
             return
         if isinstance(st, ast.Pass):
+            return
+        if isinstance(st, ast.Global):
+            gl = self.__dict__.setdefault("globals_declared", set())
+            gl.update(st.names)
+            for nm in st.names:
+                self.env.pop(nm, None)
             return
         if isinstance(st, ast.Expr) and isinstance(st.value, (ast.Yield, ast.YieldFrom)):
             ys = getattr(self, "yields", None)
@@ -1096,6 +1162,8 @@ class _PyType:
             return self.t.__name__
         if (self.t, name) in _PY_CLASSMETHODS:
             return _Spec(getattr(self.t, name), f"{self.t.__name__}.{name}")
+        if name in _PY_METHODS.get(self.t, ()):
+            return _Spec(getattr(self.t, name), f"{self.t.__name__}.{name}")  # the unbound method: str.strip, bytes.decode, ...
         raise Unsupported(f"attribute .{name} of type {self.t.__name__}")
 
     def __repr__(self):
@@ -1112,7 +1180,7 @@ class _ExcType:
         return Record("exception", {"name": self.name})
 
 
-_PY_CLASSMETHODS = {(int, "from_bytes")}
+_PY_CLASSMETHODS = {(int, "from_bytes"), (dict, "fromkeys"), (bytes, "fromhex"), (str, "maketrans")}
 _PY_METHODS = {
     str: {"islower", "isupper", "istitle", "isspace", "isalnum", "isdecimal", "isnumeric", "title", "capitalize", "casefold", "swapcase", "removeprefix", "removesuffix", "expandtabs", "center", "ljust", "rjust", "encode", "split", "rsplit", "startswith", "endswith", "strip", "lstrip", "rstrip", "join", "format", "lower", "upper", "replace", "count", "isascii", "isdigit", "isalpha", "find", "rfind", "partition", "rpartition", "splitlines", "zfill", "isidentifier", "isprintable"},
     bytes: {"decode", "startswith", "endswith", "hex", "join", "replace", "find", "rstrip", "strip", "lstrip", "split", "count"},
@@ -1121,7 +1189,10 @@ _PY_METHODS = {
     list: {"append", "insert", "extend", "index", "count", "copy", "pop", "sort", "reverse"},
     tuple: {"index", "count"},
     dict: {"get", "copy", "setdefault", "update", "pop"},
+    __import__("re").Pattern: {"match", "fullmatch", "search", "sub", "subn", "findall", "split", "finditer"},
+    __import__("re").Match: {"group", "groups", "groupdict", "start", "end", "span"},
     bytearray: {"extend", "append", "decode", "startswith", "endswith", "hex", "find", "count", "copy", "clear", "pop", "insert", "join", "replace"},
+    __import__("io").BufferedReader: {"read", "seek", "tell", "seekable", "readable", "readline", "peek", "close", "read1", "readinto"},
     __import__("io").BytesIO: {"read", "seek", "tell", "seekable", "readable", "readline", "getvalue", "write", "close", "peek", "getbuffer", "truncate"},
     set: {"add", "discard", "update", "union", "copy", "issubset", "issuperset", "intersection", "difference", "remove"},
     frozenset: {"union", "issubset", "issuperset", "intersection", "difference"},
@@ -1163,11 +1234,7 @@ class _Lambda:
     def __init__(self, ev: OEvaluator, node: ast.Lambda):
         self.ev, self.node = ev, node
 
-    def __call__(self, *args):
-        names = [a.arg for a in self.node.args.args]
-        if len(names) != len(args):
-            raise PyRaise("TypeError")
-        env = dict(self.ev.env)
-        env.update(zip(names, args))
-        sub = OEvaluator(self.ev.oe, env, self.ev.module, self.ev.cls_scope, self.ev.func_owner)
-        return sub.ev(self.node.body)
+    def __call__(self, *args, **kw):
+        from .minieval import Closure
+
+        return Closure(self.ev, self.node).sa_call(list(args), kw)
